@@ -181,10 +181,12 @@ func (s *Sim) Apply(op Op) bool {
 		}
 		inPlace := dst.ln+n <= dst.cp
 		if inPlace && src != dst && src.sid == dst.sid && n > 0 {
-			// the source's readable window must not overlap the region written
+			// the source's readable window may overlap the region written: a plain Go
+			// append(dst, src...) copies with memmove semantics, i.e. appends the source's
+			// samples as they were before the call (the model below captures them first)
 			wlo, whi := dst.off+dst.ln, dst.off+dst.ln+n
 			if src.off < whi && wlo < src.off+src.ln {
-				return false
+				res.Class("sourceOverlapsTheRegionWritten")
 			}
 		}
 		add := append([]kit.Val(nil), s.stor[src.sid][src.off:src.off+src.ln]...)
